@@ -5,17 +5,12 @@
 From Coq Require Import ZArith List Bool QArith Qcanon.
 From Batchie Require Import Lib.Sexp Lib.Num Lib.PyRt Model.Cli Model.CliAnalyze Model.Metrics Generated.SrcCliAnalyze Proofs.PyRtLemmas
   Proofs.C20Spec Proofs.C20Metrics Generated.SrcMetrics Proofs.C20SourceMetrics.
+From Batchie Require Export Proofs.C20SourceCli_AnalyzeMain.
 Import ListNotations.
 Open Scope Z_scope.
 
-Theorem src_cli_analyze_is_model :
-  forall (Scr Th Ev Co F : Type) (L : an_lib Scr Th Ev Co F) (a : an_args),
-  src_cli_analyze Scr Th Ev Co F L a = cli_analyze L a.
-Proof.
-  intros. unfold src_cli_analyze, cli_analyze. cbv zeta.
-  rewrite !res_map_all_ret.
-  repeat cli_step. all: reflexivity.
-Qed.
+(* the link itself is a file of its own (failure isolation: C18 re-uses it without the metric translations):
+   src_cli_analyze_is_model : src_cli_analyze Scr Th Ev Co F L a = cli_analyze L a *)
 
 (* a run whose loads succeed reports exactly this, in this order: the similarity matrix is computed on the loaded --screen
    and the concatenation of ALL --thetas files in argument order; every plot of the evaluation and the summary come from
@@ -30,14 +25,14 @@ Theorem src_cli_analyze_reports :
   src_cli_analyze Scr Th Ev Co F L a
   = Ok [AnMkdir (an_output_dir a);
         AnHeat c (an_output_dir a, N_heat);
-        AnScatter e (an_output_dir a, N_scatter);
-        AnScatterSample e (an_output_dir a, N_scatter_sample);
+        AnScatter e (an_output_dir a, N_scatter) (Some (an_seed a));
+        AnScatterSample e (an_output_dir a, N_scatter_sample) (Some (an_seed a));
         AnViolin e (an_output_dir a, N_violin) None;
         AnViolin e (an_output_dir a, N_violin99) (Some 99);
         AnSummary (mk_an_summary (an_mse L e) (an_mse_variance L e) (an_inter_chain L e)) (an_output_dir a, N_summary)].
 Proof.
   intros Scr Th Ev Co F L a hs th scr e c H1 H2 H3 H4 H5.
-  rewrite src_cli_analyze_is_model. unfold cli_analyze.
+  rewrite src_cli_analyze_is_model. unfold cli_analyze, cli_analyze_gen.
   rewrite H1. cbn [res_bind]. rewrite H2. cbn [res_bind]. rewrite H3. cbn [res_bind]. rewrite H4. cbn [res_bind].
   rewrite H5. cbn [res_bind]. reflexivity.
 Qed.
@@ -49,7 +44,7 @@ Lemma reported_summary_of :
   reported_summary (src_cli_analyze Scr Th Ev Co F L a) = Some s ->
   s = mk_an_summary (an_mse L e) (an_mse_variance L e) (an_inter_chain L e).
 Proof.
-  intros Scr Th Ev Co F L a e s He. rewrite src_cli_analyze_is_model. unfold cli_analyze.
+  intros Scr Th Ev Co F L a e s He. rewrite src_cli_analyze_is_model. unfold cli_analyze, cli_analyze_gen.
   destruct (res_map_all (an_load_thetas L) (an_thetas a)) as [hs|t]; cbn [res_bind reported_summary]; [|discriminate].
   destruct (an_concat_thetas L hs) as [th|t]; cbn [res_bind reported_summary]; [|discriminate].
   destruct (an_load_screen L (an_screen a)) as [scr|t]; cbn [res_bind reported_summary]; [|discriminate].
